@@ -1,8 +1,8 @@
 SPECIFICATION Spec
 CONSTANTS
-  Kinds = {"plain", "params", "locals", "viewbind", "redirectwith", "withinput", "flashfull", "flashpartial", "flashtrunc", "bindquery", "bindauto", "resphdr", "baseurl", "error", "notallowed", "sendfilemaxage", "optparam"}
-  Probes = {"plain", "params", "flashpartial", "flashshort", "bindbad", "star", "optparam", "sendfile"}
+  Kinds = {"plain", "params", "locals", "viewbind", "redirectwith", "withinput", "flashfull", "flashpartial", "flashtrunc", "bindquery", "bindauto", "resphdr", "baseurl", "error", "notallowed", "sendfilemaxage", "optparam", "viewrender", "localsrender", "jsonp"}
+  Probes = {"plain", "params", "flashpartial", "flashshort", "bindbad", "star", "optparam", "sendfile", "rendernil", "jsonp"}
   MaxHist = 4
-  ResetFields = {"params", "locals", "viewbind", "flash", "bind", "redirect", "resphdr", "route", "baseuri"}
+  ResetFields = {"params", "locals", "viewbind", "flash", "bind", "redirect", "resphdr", "route", "baseuri", "renderbind", "respbody"}
 INVARIANT NoForeignData
 INVARIANT Emit
